@@ -1,6 +1,6 @@
 """C12 - channel representations are equivalent; channels are contractive (classical subdomain).
 specs: specs/tensor/{Channel,MC_Channel,MC_Classical}.tla"""
-import random
+import random, math
 from fractions import Fraction
 import numpy as np
 from .. import tlc, core
@@ -237,6 +237,39 @@ def run_qubit(ctx, quick):
             if f1 < f0 - 2 * ftol or not (-ftol <= f1 <= 1 + ftol):
                 ctx.violation('C12:get_fidelity:monotone', 'fidelity decreased under %s or left [0,1]' % c['kind'], data)
             ctx.evaluations += 9
+            # ---- purity and entropies.  The model delivers the exact rational invariants |r|^2, |s|^2, r.s (before and after the
+            # channel); the expected values are the closed-form functions (sqrt, log) of these invariants.
+            Ut = numqi.utils
+            r2, s2, rs = 1 - (u[3] / Du) ** 2, 1 - (v[3] / Dv) ** 2, (u[0] * v[0] + u[1] * v[1] + u[2] * v[2]) / (Du * Dv)
+            r2a, s2a, rsa = 1 - obs['a'] / M ** 2, 1 - obs['b'] / N ** 2, obs['dot1'] / (M * N)
+            for tag, st_, x2 in (('input', rho, r2), ('output', o1, r2a)):
+                x = math.sqrt(max(x2, 0.0))
+                lam = [(1 + x) / 2, (1 - x) / 2]
+                H = -sum(l * math.log(l) for l in lam if l > 0)
+                if core.gt(abs(Ut.get_purity(st_) - (1 + x2) / 2), 1e-9):
+                    ctx.violation('C12:get_purity:qubit', 'purity differs from (1+|r|^2)/2 [%s state]' % tag, data)
+                sv = Ut.get_von_neumann_entropy(st_)
+                if core.gt(abs(sv - H), 1e-8) or core.gt(-sv, 1e-9) or core.gt(sv - math.log(2), 1e-9):
+                    ctx.violation('C12:get_von_neumann_entropy:qubit', 'entropy differs from the binary entropy of (1+|r|)/2 or leaves [0, log 2] [%s state]: %r' % (tag, sv), data)
+                for al in (0.5, 2, 3):
+                    want = math.log(sum(l ** al for l in lam)) / (1 - al)
+                    got = Ut.get_Renyi_entropy(st_, al)
+                    if core.gt(abs(got - want), 1e-6 if x2 > 1 - 1e-12 else 1e-8) or core.gt(got - math.log(2), 1e-8) or core.gt(-got, 1e-6):
+                        ctx.violation('C12:get_Renyi_entropy:qubit', 'Renyi entropy (alpha=%s) of the %s state is %r, expected %.12g (range [0, log 2])' % (al, tag, got, want), data)
+
+            def trlog(x2, y2, xy):          # Tr rho log rho (y = x) or Tr rho log sigma, from the invariants
+                y = math.sqrt(y2)
+                base = 0.5 * math.log((1 - y2) / 4)
+                return base if y == 0 else base + (xy / (2 * y)) * math.log((1 + y) / (1 - y))
+            if s2 < 1 and s2a < 1:          # sigma of full rank (otherwise the relative entropy is infinite)
+                E0 = (trlog(r2, r2, r2) if r2 < 1 else 0.0) - trlog(r2, s2, rs)
+                E1 = (trlog(r2a, r2a, r2a) if r2a < 1 else 0.0) - trlog(r2a, s2a, rsa)
+                e0, e1 = Ut.get_relative_entropy(rho, sig), Ut.get_relative_entropy(o1, o2)
+                if core.gt(abs(e0 - E0), 1e-7) or core.gt(abs(e1 - E1), 1e-7):
+                    ctx.violation('C12:get_relative_entropy:qubit', 'relative entropy differs from the closed form in the Bloch invariants (got %r / %r, expected %.12g / %.12g)' % (e0, e1, E0, E1), data)
+                if core.gt(e1 - e0, 1e-8) or core.gt(-e1, 1e-8):
+                    ctx.violation('C12:get_relative_entropy:monotone', 'relative entropy increased under %s or is negative' % c['kind'], data)
+            ctx.evaluations += 12
         except Exception as ex:
             ctx.violation('C12:exception:qubit', type(ex).__name__ + ': ' + str(ex)[:160], data)
     ctx.traces += n
@@ -250,7 +283,7 @@ def run(ctx):
                 'three apply forms and all conversions; built-in noise channels at rates 0,1/4,1/2,3/4,1; classical subdomain: diagonal rational states x relabelling channels (exhaustive model, '
                 '%s instances replayed); qubit pairs: every rational Bloch-ball point with rational purity defect (denominators %s) x dephasing / depolarizing / amplitude damping at 4-5 rates x 5 rational unitaries, exhaustive theorem check and one residue class of instances replayed; distinct by instance' % (3 if quick else 4, 2 if quick else 4, '600' if quick else 'all', '{3,5}x{2,3}' if quick else '{2,3,5,7}x{1,3,5,6}'))
     ctx.assumptions = ['TLC/SANY correct', 'tolerance 1e-9 (1e-8 for eigen-decomposition based routines)', 'Gell-Mann coordinates verified by C16']
-    ctx.not_covered = ['relative entropy / von Neumann entropy (logarithms - no exact model)', 'contractivity for quantum pairs beyond one qubit (qubit pairs: exact Bloch-ball model MC_Qubit)', 'fidelity after a non-injective relabelling channel only as an inequality']
+    ctx.not_covered = ['entropies beyond one qubit (on the qubit: closed-form functions of the exact Bloch invariants of MC_Qubit)', 'contractivity for quantum pairs beyond one qubit (qubit pairs: exact Bloch-ball model MC_Qubit)', 'fidelity after a non-injective relabelling channel only as an inequality']
     r = tlc.run('tensor/MC_Channel.tla', 'tensor/MC_Channel_%s.cfg' % ('q' if quick else 't'), dump=True, timeout=3000)
     ctx.add_model('MC_Channel', r)
     sts = list(tlc.parse_dump(r))
